@@ -27,6 +27,7 @@ type connKey struct{}
 // simConn is one simulated HTTP exchange.
 type simConn struct {
 	w  *e2eWorld
+	cl *e2eClient
 	id int
 
 	reqHeader http.Header
@@ -119,17 +120,22 @@ func (c *simConn) serverWriteFailed(what string) error {
 
 // ---------------------------------------------------------------- client side of simnet
 
-type e2eRT struct{ w *e2eWorld }
+type e2eRT struct {
+	w  *e2eWorld
+	cl *e2eClient
+}
 
 type e2eBody struct{ c *simConn }
 
 func (rt *e2eRT) RoundTrip(req *http.Request) (*http.Response, error) {
 	w := rt.w
-	c := &simConn{w: w, id: len(w.conns) + 1, reqHeader: req.Header.Clone(), clientCtx: req.Context(), respHeader: http.Header{}, eventsBefore: len(w.received)}
+	cl := rt.cl
+	c := &simConn{w: w, cl: cl, id: len(w.conns) + 1, reqHeader: req.Header.Clone(), clientCtx: req.Context(), respHeader: http.Header{}, eventsBefore: len(cl.received)}
 	c.srvCtx, c.srvCancel = context.WithCancel(context.WithValue(context.Background(), connKey{}, c.id))
 	c.cancelMode = w.ch.Weighted([]int{2, 3, 2}, "server context cancellation mode")
 	w.conns = append(w.conns, c)
-	w.sim.Logf("RoundTrip", "conn%d Last-Event-ID=%q", c.id, req.Header.Values("Last-Event-ID"))
+	cl.conns = append(cl.conns, c)
+	w.sim.Logf("RoundTrip", "client%d conn%d Last-Event-ID=%q", cl.id, c.id, req.Header.Values("Last-Event-ID"))
 	sreq, err := http.NewRequestWithContext(c.srvCtx, req.Method, "http://sim.invalid/events", nil)
 	if err != nil {
 		panic(err)
@@ -137,6 +143,7 @@ func (rt *e2eRT) RoundTrip(req *http.Request) (*http.Response, error) {
 	for k, v := range req.Header {
 		sreq.Header[k] = append([]string(nil), v...)
 	}
+	sreq.Header.Set("X-Sim-Client", strconv.Itoa(cl.id))
 	w.sim.Spawn(fmt.Sprintf("handler%d", c.id), func() {
 		w.server.ServeHTTP(&simRW{c}, sreq)
 		// net/http flushes what is buffered when the handler returns
@@ -273,26 +280,33 @@ type e2eWorld struct {
 	auto   bool
 	finite bool
 
-	clientCtx    context.Context
-	clientCancel context.CancelFunc
-	conn         *sse.Connection
-	sessTopics   []string
+	clients []*e2eClient
 
 	msgs     []*e2eMsg
 	byMsg    map[*sse.Message]*e2eMsg
 	pubs     [][]*e2eMsg
 	pubsDone int
 	conns    []*simConn
-	received []RefEvent
-	recvConn []int
 
 	cuts       int
 	cutterDone bool
+	faultsOver bool
+}
+
+// e2eClient is one real Client/Connection with its own session topics.
+type e2eClient struct {
+	w          *e2eWorld
+	id         int
+	ctx        context.Context
+	cancel     context.CancelFunc
+	conn       *sse.Connection
+	sessTopics []string
+	conns      []*simConn
+	received   []RefEvent
 	connectErr error
 	connectRet bool
 	caughtUp   bool
-	excluded   string
-	faultsOver bool
+	rejected   bool
 }
 
 func normalizeData(parts []string) (string, bool) {
@@ -339,13 +353,18 @@ func (w *e2eWorld) generate() {
 	}
 	w.rep = &recReplayer{w: w, inner: inner}
 	w.joe = &sse.Joe{Replayer: w.rep}
-	w.sessTopics = nil
-	if ch.Chance(1, 2, "session topics") {
-		w.sessTopics = genTopics(ch, "session")
+	nClients := 1 + ch.Weighted([]int{3, 2}, "extra clients")
+	for i := 0; i < nClients; i++ {
+		cl := &e2eClient{w: w, id: i}
+		if ch.Chance(1, 2, "session topics") {
+			cl.sessTopics = genTopics(ch, "session")
+		}
+		w.clients = append(w.clients, cl)
 	}
 	w.server = &sse.Server{Provider: w.joe}
-	if w.sessTopics != nil {
-		w.server.OnSession = func(rw http.ResponseWriter, r *http.Request) ([]string, bool) { return w.sessTopics, true }
+	w.server.OnSession = func(rw http.ResponseWriter, r *http.Request) ([]string, bool) {
+		i, _ := strconv.Atoi(r.Header.Get("X-Sim-Client"))
+		return w.clients[i].sessTopics, true
 	}
 	nPubs := ch.Range(1, 3, "publishers")
 	budget := 12
@@ -403,33 +422,52 @@ func (w *e2eWorld) generate() {
 	}
 }
 
-func (w *e2eWorld) matches(topics []string) bool {
-	st := w.sessTopics
+func (cl *e2eClient) matches(topics []string) bool {
+	st := cl.sessTopics
 	if len(st) == 0 {
 		st = []string{sse.DefaultTopic}
 	}
 	return topicsIntersect(st, topics)
 }
 
-// expected is P restricted to the session's topics.
-func (w *e2eWorld) expected() []*e2ePut {
+// expected is P restricted to the client's session topics.
+func (cl *e2eClient) expected() []*e2ePut {
 	var out []*e2ePut
-	for _, p := range w.rep.puts {
-		if w.matches(p.topics) {
+	for _, p := range cl.w.rep.puts {
+		if cl.matches(p.topics) {
 			out = append(out, p)
 		}
 	}
 	return out
 }
 
-func (w *e2eWorld) activeConn() *simConn {
-	if n := len(w.conns); n > 0 {
-		c := w.conns[n-1]
+func (cl *e2eClient) activeConn() *simConn {
+	if n := len(cl.conns); n > 0 {
+		c := cl.conns[n-1]
 		if !c.cut && !c.handlerDone && !c.bodyClosed {
 			return c
 		}
 	}
 	return nil
+}
+
+// activeConn returns an active connection of some client (the one the chooser picks).
+func (w *e2eWorld) activeConns() []*simConn {
+	var out []*simConn
+	for _, cl := range w.clients {
+		if c := cl.activeConn(); c != nil {
+			out = append(out, c)
+		}
+	}
+	return out
+}
+
+func (w *e2eWorld) totalReceived() int {
+	n := 0
+	for _, cl := range w.clients {
+		n += len(cl.received)
+	}
+	return n
 }
 
 func (w *e2eWorld) build() {
@@ -442,22 +480,24 @@ func (w *e2eWorld) build() {
 	if ch.Chance(1, 2, "no jitter") {
 		b.Jitter = -1
 	}
-	client := &sse.Client{HTTPClient: &http.Client{Transport: &e2eRT{w}}, Backoff: b}
-	w.clientCtx, w.clientCancel = context.WithCancel(context.Background())
-	context.AfterFunc(w.clientCtx, sim.Poke)
-	req, _ := http.NewRequestWithContext(w.clientCtx, http.MethodGet, "http://sim.invalid/events", nil)
-	w.conn = client.NewConnection(req)
-	w.conn.SubscribeToAll(func(e sse.Event) {
-		w.received = append(w.received, RefEvent{ID: e.LastEventID, Type: e.Type, Data: e.Data})
-		w.recvConn = append(w.recvConn, len(w.conns))
-		sim.Logf("event", "#%d {id=%q type=%q data=%q}", len(w.received), e.LastEventID, e.Type, e.Data)
-		w.checkSafety()
-	})
-	sim.Spawn("connect", func() {
-		w.connectErr = w.conn.Connect()
-		w.connectRet = true
-		sim.Logf("Connect", "returned %v", w.connectErr)
-	})
+	for _, cl := range w.clients {
+		cl := cl
+		client := &sse.Client{HTTPClient: &http.Client{Transport: &e2eRT{w, cl}}, Backoff: b}
+		cl.ctx, cl.cancel = context.WithCancel(context.Background())
+		context.AfterFunc(cl.ctx, sim.Poke)
+		req, _ := http.NewRequestWithContext(cl.ctx, http.MethodGet, "http://sim.invalid/events", nil)
+		cl.conn = client.NewConnection(req)
+		cl.conn.SubscribeToAll(func(e sse.Event) {
+			cl.received = append(cl.received, RefEvent{ID: e.LastEventID, Type: e.Type, Data: e.Data})
+			sim.Logf("event", "client%d #%d {id=%q type=%q data=%q}", cl.id, len(cl.received), e.LastEventID, e.Type, e.Data)
+			cl.checkSafety()
+		})
+		sim.Spawn(fmt.Sprintf("connect%d", cl.id), func() {
+			cl.connectErr = cl.conn.Connect()
+			cl.connectRet = true
+			sim.Logf("Connect", "client%d returned %v", cl.id, cl.connectErr)
+		})
+	}
 	for i, list := range w.pubs {
 		i, list := i, list
 		wait := []int{1, 0, 2, 3}[ch.Weighted([]int{5, 1, 2, 1}, "publisher waits for connections")]
@@ -468,8 +508,8 @@ func (w *e2eWorld) build() {
 			for _, em := range list {
 				gap := ch.Range(0, 3, "publish gap")
 				if gap > 0 {
-					target := len(w.received) + gap - 1
-					sim.WaitWeak("publisher paces", func() bool { return len(w.received) >= target })
+					target := w.totalReceived() + gap - 1
+					sim.WaitWeak("publisher paces", func() bool { return w.totalReceived() >= target })
 				}
 				sim.Logf("Publish", "%s id=%q type=%q data=%q topics=%s", em.tag, em.id, em.typ, em.data, fmtTopics(em.topics))
 				em.err = w.server.Publish(em.msg, em.topics...)
@@ -483,25 +523,44 @@ func (w *e2eWorld) build() {
 	sim.Spawn("cutter", func() {
 		for i := 0; i < nCuts; i++ {
 			k := ch.Range(0, 4, "cut after events")
-			base := len(w.received)
+			base := w.totalReceived()
+			pick := func(ok func(c *simConn) bool) *simConn {
+				var cands []*simConn
+				for _, c := range w.activeConns() {
+					if ok(c) {
+						cands = append(cands, c)
+					}
+				}
+				if len(cands) == 0 {
+					return nil
+				}
+				return cands[0]
+			}
+			var want func(c *simConn) bool
 			switch ch.Weighted([]int{3, 3, 1}, "cut trigger") {
 			case 0: // after k more events, on a connection that has sent something
-				sim.WaitWeakRank("cutter waits for events", 1, func() bool {
-					c := w.activeConn()
-					return c != nil && c.sentAny && len(w.received) >= base+k
-				})
+				want = func(c *simConn) bool { return c.sentAny && w.totalReceived() >= base+k }
+				sim.WaitWeakRank("cutter waits for events", 1, func() bool { return pick(want) != nil })
 			case 1: // while flushed bytes are still unread by the client: the cut can fall inside an event
-				sim.WaitWeakRank("cutter waits for bytes in flight", 1, func() bool {
-					c := w.activeConn()
-					return c != nil && c.readPos < len(c.delivered)
-				})
+				want = func(c *simConn) bool { return c.readPos < len(c.delivered) }
+				sim.WaitWeakRank("cutter waits for bytes in flight", 1, func() bool { return pick(want) != nil })
 			case 2: // any time there is a connection, also before its headers
-				sim.WaitWeakRank("cutter waits for a connection", 1, func() bool { return w.activeConn() != nil })
+				want = func(c *simConn) bool { return true }
+				sim.WaitWeakRank("cutter waits for a connection", 1, func() bool { return pick(want) != nil })
 			}
-			c := w.activeConn()
-			if c == nil {
+			var cands []*simConn
+			for _, c := range w.activeConns() {
+				if want(c) {
+					cands = append(cands, c)
+				}
+			}
+			if len(cands) == 0 {
+				cands = w.activeConns()
+			}
+			if len(cands) == 0 {
 				continue
 			}
+			c := cands[ch.Intn(len(cands), "which connection")]
 			w.doCut(c)
 			sim.YieldHere("cutter")
 		}
@@ -511,39 +570,49 @@ func (w *e2eWorld) build() {
 		sim.WaitFor("closer waits for publishers and cutter", func() bool { return w.pubsDone == len(w.pubs) && w.cutterDone })
 		w.faultsOver = true
 		sim.Log("closer", "faults stopped, all publishes returned")
-		// bounded liveness: once faults stop the client catches up
-		sim.WaitFor("closer waits for the client to catch up", func() bool {
-			return w.isCaughtUp() || w.connectRet
-		})
-		// let a client whose last connection was cut reconnect once more and let the
-		// system settle: a fully caught-up client must get nothing again
-		if len(w.received) > 0 && !w.connectRet {
-			sim.WaitFor("closer waits for the client to be connected", func() bool { return w.activeConn() != nil || w.connectRet })
-			sim.WaitWeakRank("closer lets the system settle", 9, func() bool { return w.connectRet })
-			if len(w.conns) > 0 && w.conns[len(w.conns)-1].eventsBefore == len(w.received) && len(w.conns) > 1 {
-				w.o.probe("reconnect while caught up (newest ID presented)")
+		// bounded liveness: once faults stop every client catches up
+		for _, cl := range w.clients {
+			cl := cl
+			sim.WaitFor("closer waits for the client to catch up", func() bool { return cl.isCaughtUp() || cl.connectRet })
+			// let a client whose last connection was cut reconnect once more and let the
+			// system settle: a fully caught-up client must get nothing again
+			if len(cl.received) > 0 && !cl.connectRet {
+				sim.WaitFor("closer waits for the client to be connected", func() bool { return cl.activeConn() != nil || cl.connectRet })
+				sim.WaitWeakRank("closer lets the system settle", 9, func() bool { return cl.connectRet })
+				if n := len(cl.conns); n > 1 && cl.conns[n-1].eventsBefore == len(cl.received) {
+					w.o.probe("reconnect while caught up (newest ID presented)")
+				}
 			}
+			cl.caughtUp = cl.isCaughtUp()
+			sim.Logf("closer", "client%d caught up: %v", cl.id, cl.caughtUp)
 		}
-		w.caughtUp = w.isCaughtUp()
-		sim.Logf("closer", "caught up: %v", w.caughtUp)
-		w.clientCancel()
-		sim.WaitFor("closer waits for Connect", func() bool { return w.connectRet })
+		for _, cl := range w.clients {
+			cl.cancel()
+		}
+		sim.WaitFor("closer waits for Connect", func() bool {
+			for _, cl := range w.clients {
+				if !cl.connectRet {
+					return false
+				}
+			}
+			return true
+		})
 		_ = w.server.Shutdown(context.Background())
 	})
 }
 
 // isCaughtUp: the client has received everything expected from its first event on.
-func (w *e2eWorld) isCaughtUp() bool {
-	exp := w.expected()
-	if len(w.received) == 0 {
+func (cl *e2eClient) isCaughtUp() bool {
+	exp := cl.expected()
+	if len(cl.received) == 0 {
 		return true // before its first event a client has nothing to resume from: outside the property
 	}
-	f := w.indexOfFirst(exp)
-	return f >= 0 && len(w.received) == len(exp)-f
+	f := cl.indexOfFirst(exp)
+	return f >= 0 && len(cl.received) == len(exp)-f
 }
 
-func (w *e2eWorld) indexOfFirst(exp []*e2ePut) int {
-	first := w.received[0]
+func (cl *e2eClient) indexOfFirst(exp []*e2ePut) int {
+	first := cl.received[0]
 	for i, p := range exp {
 		if eventTag(first) == p.msg.tag {
 			return i
@@ -560,20 +629,21 @@ func eventTag(e RefEvent) string {
 }
 
 // checkSafety runs after every callback: O = P[f .. f+|O|).
-func (w *e2eWorld) checkSafety() {
+func (cl *e2eClient) checkSafety() {
+	w := cl.w
 	if len(w.o.Violations) > 0 {
 		return
 	}
-	exp := w.expected()
-	f := w.indexOfFirst(exp)
+	exp := cl.expected()
+	f := cl.indexOfFirst(exp)
 	if f < 0 {
-		w.o.violate("C05", "unknown-event", "the client received %s, which matches no published message of its topics", describeEvents(w.received[:1]))
+		w.o.violate("C05", "unknown-event", "client%d received %s, which matches no published message of its topics", cl.id, describeEvents(cl.received[:1]))
 		return
 	}
-	i := len(w.received) - 1
-	got := w.received[i]
+	i := len(cl.received) - 1
+	got := cl.received[i]
 	if f+i >= len(exp) {
-		w.o.violate("C05", "extra-event", "event #%d %s: only %d matching messages were published from the client's first event on; received so far %s", i+1, describeEvents([]RefEvent{got}), len(exp)-f, w.tagsReceived())
+		w.o.violate("C05", "extra-event", "client%d event #%d %s: only %d matching messages were published from the client's first event on; received so far %s", cl.id, i+1, describeEventsShort([]RefEvent{got}), len(exp)-f, cl.tagsReceived())
 		return
 	}
 	p := exp[f+i]
@@ -583,14 +653,14 @@ func (w *e2eWorld) checkSafety() {
 		if eventTag(got) == p.msg.tag {
 			clause = "content"
 		}
-		w.o.violate("C05", clause, "event #%d on connection %d is %s, want %s (published sequence from the first received event: %s; received: %s)",
-			i+1, len(w.conns), describeEvents([]RefEvent{got}), describeEvents([]RefEvent{want}), w.tagsExpected(exp[f:]), w.tagsReceived())
+		w.o.violate("C05", clause, "client%d event #%d on its connection %d is %s, want %s (published sequence from the first received event: %s; received: %s)",
+			cl.id, i+1, len(cl.conns), describeEventsShort([]RefEvent{got}), describeEventsShort([]RefEvent{want}), w.tagsExpected(exp[f:]), cl.tagsReceived())
 	}
 }
 
-func (w *e2eWorld) tagsReceived() string {
-	t := make([]string, len(w.received))
-	for i, e := range w.received {
+func (cl *e2eClient) tagsReceived() string {
+	t := make([]string, len(cl.received))
+	for i, e := range cl.received {
 		t[i] = eventTag(e)
 	}
 	return "[" + strings.Join(t, " ") + "]"
@@ -702,19 +772,23 @@ func runE2EWorld(rc *RunCtx) *Outcome {
 	h.u64(res.SchedHash)
 	h.str(strings.Join(w.describe(), "|"))
 	o.Key = uint64(h)
-	o.Nontrivial = len(w.received) >= 1 && len(w.conns) >= 1
-	o.Sample = map[string]any{"scenario": w.describe(), "connections": len(w.conns), "cuts": w.cuts, "events_received": len(w.received), "published": len(w.rep.puts), "steps": res.Steps}
+	o.Nontrivial = w.totalReceived() >= 1 && len(w.conns) >= 1
+	o.Sample = map[string]any{"scenario": w.describe(), "clients": len(w.clients), "connections": len(w.conns), "cuts": w.cuts, "events_received": w.totalReceived(), "published": len(w.rep.puts), "steps": res.Steps}
 	sh := newHasher()
 	sh.int(len(w.conns))
 	sh.int(w.cuts)
-	sh.int(len(w.received))
+	sh.int(w.totalReceived())
+	sh.int(len(w.clients))
 	sh.int(len(w.rep.puts))
 	o.States = append(o.States, uint64(sh))
 	return o
 }
 
 func (w *e2eWorld) describe() []string {
-	out := []string{fmt.Sprintf("replayer finite=%v autoIDs=%v sessionTopics=%s", w.finite, w.auto, fmtTopics(w.sessTopics))}
+	out := []string{fmt.Sprintf("replayer finite=%v autoIDs=%v", w.finite, w.auto)}
+	for _, cl := range w.clients {
+		out = append(out, fmt.Sprintf("client%d sessionTopics=%s", cl.id, fmtTopics(cl.sessTopics)))
+	}
 	for i, list := range w.pubs {
 		var ms []string
 		for _, m := range list {
@@ -749,58 +823,65 @@ func (w *e2eWorld) evaluate(res verifhook.Result) {
 		return
 	}
 	// excluded by the property: a session that ended before anything was sent yields an empty 200 the validator rejects
-	var ce *sse.ConnectionError
-	rejected := errors.As(w.connectErr, &ce) && ce.Reason == "response validation failed"
-	if rejected {
-		w.excluded = "a session ended before anything was sent: the default validator rejected the empty 200 for good"
-		o.probe("excluded: empty 200 rejected by the validator")
-	}
-	if len(w.received) == 0 {
-		o.probe("client never received an event")
+	anyRejected := false
+	for _, cl := range w.clients {
+		var ce *sse.ConnectionError
+		cl.rejected = errors.As(cl.connectErr, &ce) && ce.Reason == "response validation failed"
+		if cl.rejected {
+			anyRejected = true
+			o.probe("excluded: empty 200 rejected by the validator")
+		}
+		if len(cl.received) == 0 {
+			o.probe("client never received an event")
+		}
 	}
 	if len(res.Unfinish) > 0 {
 		var names []string
 		for _, t := range res.Unfinish {
 			names = append(names, t.Name+"@"+t.Site())
 		}
-		if w.faultsOver && !rejected {
-			exp := w.expected()
-			f := -1
-			if len(w.received) > 0 {
-				f = w.indexOfFirst(exp)
+		if w.faultsOver && !anyRejected {
+			var state []string
+			for _, cl := range w.clients {
+				state = append(state, fmt.Sprintf("client%d at %s of %s", cl.id, cl.tagsReceived(), w.tagsExpected(cl.expected())))
 			}
-			o.violate("C05", "never-caught-up", "faults stopped and all publishes returned, but the system went idle with the client at %s of %s (first received index %d); blocked: %s",
-				w.tagsReceived(), w.tagsExpected(exp), f, strings.Join(names, ", "))
+			o.violate("C05", "never-caught-up", "faults stopped and all publishes returned, but the system went idle with %s; blocked: %s", strings.Join(state, ", "), strings.Join(names, ", "))
 		} else {
 			o.Inconclusive = true
 		}
 		return
 	}
-	if !rejected && w.faultsOver && !w.caughtUp {
-		exp := w.expected()
-		o.violate("C05", "never-caught-up", "Connect returned %v before the client had caught up: received %s of %s", w.connectErr, w.tagsReceived(), w.tagsExpected(exp))
+	for _, cl := range w.clients {
+		if !cl.rejected && w.faultsOver && !cl.caughtUp {
+			o.violate("C05", "never-caught-up", "client%d: Connect returned %v before the client had caught up: received %s of %s", cl.id, cl.connectErr, cl.tagsReceived(), w.tagsExpected(cl.expected()))
+		}
 	}
 	// probes
-	for i, c := range w.conns {
-		if i > 0 && len(c.reqHeader.Values("Last-Event-ID")) == 1 {
-			o.probe("reconnect carrying Last-Event-ID")
+	for _, cl := range w.clients {
+		for i, c := range cl.conns {
+			if i > 0 && len(c.reqHeader.Values("Last-Event-ID")) == 1 {
+				o.probe("reconnect carrying Last-Event-ID")
+			}
+			if c.writeErrs > 0 {
+				o.probe("server write failed on a cut connection")
+			}
 		}
-		if c.writeErrs > 0 {
-			o.probe("server write failed on a cut connection")
+		if len(cl.conns) >= 3 {
+			o.probe("three or more connections of one client")
+		}
+		if cl.caughtUp && len(cl.received) >= 2 && w.cuts > 0 {
+			o.probe("caught up after at least one cut")
 		}
 	}
-	if len(w.conns) >= 3 {
-		o.probe("three or more connections")
-	}
-	if w.caughtUp && len(w.received) >= 2 && w.cuts > 0 {
-		o.probe("caught up after at least one cut")
+	if len(w.clients) > 1 && w.totalReceived() > 0 {
+		o.probe("two clients")
 	}
 }
 
 func init() {
 	register(&World{
 		Name: "e2e", Level: "exploration",
-		Rule: "each evaluation draws a replayer (Finite capacity 64 or Valid with a huge TTL; manual or automatic IDs), session topics, 1-3 publishers with up to 12 messages (unique tag as first data line; adversarial further data, types, IDs, comments, retry), a client back-off, 0-4 cuts (abrupt at any byte offset of what was flushed, incl. before the headers and inside an event, with io.ErrUnexpectedEOF or an opaque error; or a server-side cancel that ends the handler after the stream started) and the schedule. " +
+		Rule: "each evaluation draws a replayer (Finite capacity 64 or Valid with a huge TTL; manual or automatic IDs), one or two clients with their session topics, 1-3 publishers with up to 12 messages (unique tag as first data line; adversarial further data, types, IDs, comments, retry), a client back-off, 0-4 cuts (abrupt at any byte offset of what was flushed, incl. before the headers and inside an event, with io.ErrUnexpectedEOF or an opaque error; or a server-side cancel that ends the handler after the stream started) and the schedule. " +
 			"After every callback the received sequence must be the published sequence from the first received event on; once faults stop and all publishes returned the client must catch up before the system goes idle. Non-trivial: at least one event received; distinct = distinct (scenario, scheduling hash).",
 		Real: []string{"sse.Server.ServeHTTP, Upgrade, Session (Send/Flush)", "sse.Joe + FiniteReplayer/ValidReplayer (instrumented copy)", "sse.Message encoding", "sse.Client/Connection/Connect, back-off on the fake clock", "event parser and interpreter", "net/http.Client"},
 		Stub: []string{"simnet: RoundTripper + ResponseWriter/FlushError + Body with net/http's contract (headers at first flush or handler return, buffered writes, EOF at handler return, cut => read error on the client and failing writes + context cancellation on the server, Body.Close cancels the server request)", "scheduler: synctest bubble + generated yield points"},
